@@ -587,3 +587,86 @@ func (m *Model) Nodes(doc map[string]any) []Node {
 	}
 	return out
 }
+
+// RefSlot is one position, inside an object of kind Root, where the meta-model allows a reference
+// to an object of kind RefKind. Steps leads from the Root object to the position.
+type RefSlot struct {
+	Root    string
+	RefKind string
+	Steps   []SlotStep
+}
+
+// SlotStep is one step of a RefSlot: a field of an object, a key of a map or an index of an array.
+type SlotStep struct {
+	Token string
+	Array bool
+}
+
+// Build returns the bare skeleton of the Root object: only the containers on the way to the slot,
+// with leaf at the slot.
+func (s RefSlot) Build(leaf any) any {
+	v := leaf
+	for i := len(s.Steps) - 1; i >= 0; i-- {
+		if s.Steps[i].Array {
+			v = []any{v}
+		} else {
+			v = map[string]any{s.Steps[i].Token: v}
+		}
+	}
+	return v
+}
+
+// Pointer is the JSON pointer of the slot below the Root object.
+func (s RefSlot) Pointer() []string {
+	var out []string
+	for _, st := range s.Steps {
+		out = append(out, st.Token)
+	}
+	return out
+}
+
+// RefSlots enumerates every reference position reachable from an object of the given kind through
+// at most depth object kinds, visiting no kind more than twice on one path.
+func (m *Model) RefSlots(kind string, depth int) []RefSlot {
+	var out []RefSlot
+	var visitKind func(kind string, steps []SlotStep, seen map[string]int, depth int)
+	var visitType func(typ string, steps []SlotStep, seen map[string]int, depth int)
+	visitKind = func(kind string, steps []SlotStep, seen map[string]int, depth int) {
+		k := m.Kinds[kind]
+		if k == nil || depth <= 0 || seen[kind] >= 2 {
+			return
+		}
+		seen[kind]++
+		defer func() { seen[kind]-- }()
+		if k.MapLike != "" {
+			key := "k"
+			if len(k.Keys) > 0 {
+				key = k.Keys[0]
+			}
+			visitType(strings.TrimSuffix(k.MapLike, "*"), append(append([]SlotStep(nil), steps...), SlotStep{Token: key}), seen, depth)
+			return
+		}
+		for _, f := range k.Fields {
+			visitType(f.Type, append(append([]SlotStep(nil), steps...), SlotStep{Token: f.Name}), seen, depth)
+		}
+	}
+	visitType = func(typ string, steps []SlotStep, seen map[string]int, depth int) {
+		switch {
+		case typ == "apb":
+			visitType("R:"+m.SchemaKind, steps, seen, depth)
+		case strings.HasPrefix(typ, "["):
+			visitType(typ[1:len(typ)-1], append(append([]SlotStep(nil), steps...), SlotStep{Token: "0", Array: true}), seen, depth)
+		case strings.HasPrefix(typ, "{"):
+			visitType(typ[1:len(typ)-1], append(append([]SlotStep(nil), steps...), SlotStep{Token: "k"}), seen, depth)
+		case strings.HasPrefix(typ, "R:"):
+			out = append(out, RefSlot{Root: kind, RefKind: typ[2:], Steps: append([]SlotStep(nil), steps...)})
+			visitKind(typ[2:], steps, seen, depth-1)
+		default:
+			if _, known := m.Kinds[typ]; known {
+				visitKind(typ, steps, seen, depth-1)
+			}
+		}
+	}
+	visitKind(kind, nil, map[string]int{}, depth)
+	return out
+}
